@@ -412,6 +412,13 @@ func (l *Lab) CheckSessionTime(t time.Time) {
 	l.drain()
 }
 
+// CheckResetTime evaluates the ResetSeqTime rule at t (the run loop does this once a second).
+func (l *Lab) CheckResetTime(t time.Time) {
+	l.begin("check reset time " + t.Format(time.RFC3339))
+	l.V.CheckResetTime(t)
+	l.drain()
+}
+
 // Snap is the current snapshot.
 func (l *Lab) Snap() quickfix.VerifSnapshot { return l.V.Snapshot() }
 
